@@ -775,6 +775,16 @@ SCALARS = [None, True, False, 0, 1, -1, 2 ** 63, -(2 ** 70), 0.0, -0.0, 1.5, 1e3
            "", "a", "café € \U0001d11e", 'q"uo\\te', "line\nbreak\ttab\x00\x1f\x7f", "  ", "x" * 1500, "=;:"]
 
 
+def enum_containers():
+    """every enum member (plain Enum, IntEnum - an int -, StrEnum - a str -) inside containers whose OTHER items are all scalars /
+    all enums / mixed with containers: a container-level shortcut must not lose the member's class (deterministic, every run)"""
+    out = []
+    for e in (T.Level.HIGH, T.Mode.FAST, T.Color.RED, T.Level.LOW, T.Mode.SLOW, T.Color.BLUE):
+        out += [[e], [e, e], [1, e], ["a", e, 2.5, None, True], [[e]], {"k": [e]}, {"k": e, "n": 1}, [e, [1], {}], [0, "x", [2, e]]]
+    out += [[1, 2.5, "a", None, True], [T.Level.LOW, T.Mode.SLOW, T.Color.RED], {"a": [1, "b"], "c": [T.Level.HIGH, 9]}]
+    return out
+
+
 def json_values(rng, n):
     leaves = SCALARS + [T.Color.RED, T.Color.BLUE, T.Level.HIGH, T.Mode.FAST, T.Money(3, "EUR"), T.Money(1.5, "€")]
 
@@ -785,7 +795,7 @@ def json_values(rng, n):
         if r < 0.72:
             return [tree(depth - 1) for _ in range(rng.randint(0, 3))]
         return {rstr(rng, 0, 3): tree(depth - 1) for _ in range(rng.randint(0, 3))}
-    out = list(leaves) + [[], {}, [[]], {"": {}}, [1, [2, [3, [4]]]], {"k": [T.Color.RED, {"z": T.Level.LOW}]}]
+    out = list(leaves) + enum_containers() + [[], {}, [[]], {"": {}}, [1, [2, [3, [4]]]], {"k": [T.Color.RED, {"z": T.Level.LOW}]}]
     out += [tree(4) for _ in range(n)]
     return out
 
@@ -796,7 +806,8 @@ def exc_values():
 
 
 def extra_values():      # pickle / jsonpickle only
-    return [(1, 2), (1, (2, [3])), {1, 2, 3}, frozenset({"a"}), b"\x00\xffbytes", T.Point(1, 2.5), {"t": (1, 2)}, [(), set()]]
+    return [(1, 2), (1, (2, [3])), {1, 2, 3}, frozenset({"a"}), b"\x00\xffbytes", T.Point(1, 2.5), {"t": (1, 2)}, [(), set()],
+            (T.Level.HIGH,), (1, T.Mode.FAST, "a"), (T.Color.RED, (T.Level.LOW, 2)), {"t": (T.Mode.SLOW, 1.5)}, frozenset({T.Level.HIGH, 1})]
 
 
 def run_e2e(ctx: Ctx, scratch: str):
@@ -1187,6 +1198,18 @@ def twin_shapes(ser: str, n: int):
     return shapes
 
 
+def twin_in_domain(ser: str, shape: str, leaf) -> bool:
+    """the serializers' DOCUMENTED domain (fixed here, never derived from the behaviour of the tree under test):
+    jsonpickle is used without keys=True, so dict keys must be str; JsonSerializer does not pre-process the payload of
+    to_json() (an IntEnum/StrEnum inside it loses its class: see domain_restrictions_observed)"""
+    import enum
+    if ser == "JsonPickleSerializer" and shape == "dict-key":
+        return False
+    if ser == "JsonSerializer" and shape == "Money" and isinstance(leaf, enum.Enum):
+        return False
+    return True
+
+
 def run_twins(ctx: Ctx, scratch: str):
     """values that are == but not the same (0.0 / -0.0, 1 / 1.0 / True, IntEnum / int, StrEnum / str, ...), serialized one after the
     other through ONE store instance: each must come back as itself, references equal <=> serialized content equal,
@@ -1207,19 +1230,20 @@ def run_twins(ctx: Ctx, scratch: str):
                 extra = [("bytes", [b"ab" * n, bytearray(b"ab" * n)][::order])]
             else:
                 extra = []
-            groups = [(shape, [build(x) for x in g[::order]]) for shape, build in twin_shapes(ser, n) for g in twin_leaf_groups()] + extra
+            groups = [(shape, [build(x) for x in g[::order] if twin_in_domain(ser, shape, x)])
+                      for shape, build in twin_shapes(ser, n) for g in twin_leaf_groups()] + extra
+            n_skipped += sum(1 for shape, _ in twin_shapes(ser, n) for g in twin_leaf_groups() for x in g if not twin_in_domain(ser, shape, x))
             done = []        # (shape, value, serializer text, store output)
             for shape, vals in groups:
                 for v in vals:
                     try:
                         text = szr.serialize(v)
-                        ok = canon(szr.deserialize(text)) == canon(v)
-                    except Exception:  # noqa: BLE001
-                        ok = False
-                    if not ok:          # outside the serializer's own domain (e.g. IntEnum inside to_json data): not this part's business
-                        n_skipped += 1
+                        out = cds.serialize(v)
+                    except Exception as ex:  # noqa: BLE001 - every value built here is in the serializer's documented domain
+                        ctx.violation(f"cds-twin:{ser}:wrong-value", f"{ser}/{kind} min_size={mn}: {shape} {repr(v)[:100]} cannot be serialized: {type(ex).__name__}: {ex}",
+                                      {"kind": "twins", "serializer": ser, "backend": kind, "min_size": mn, "values_pickle_b64": [b64(v)],
+                                       "why": "raised", "observed": f"<{type(ex).__name__}: {ex}>"[:200], "expected": repr(v)[:200]})
                         continue
-                    out = cds.serialize(v)
                     n_vals += 1
                     n_ext += cds.is_reference(out)
                     done.append((shape, v, text, out))
@@ -1259,7 +1283,7 @@ def run_twins(ctx: Ctx, scratch: str):
                         break
                 ids.setdefault(shape, []).append((sargs, v, call.call_id))
     ctx.count(n_vals, n_vals)
-    ctx.notes["equal_but_different_values"] = {"values": n_vals, "externalised": n_ext, "outside_serializer_domain_skipped": n_skipped,
+    ctx.notes["equal_but_different_values"] = {"values": n_vals, "externalised": n_ext, "outside_documented_domain_not_built": n_skipped,
                                                "leaf_groups": [[repr(x) for x in g] for g in twin_leaf_groups()],
                                                "shapes": [sh for sh, _ in twin_shapes("PickleSerializer", 1)] + ["bytes/bytearray"],
                                                "configurations": len(combos) * 2}
